@@ -137,6 +137,7 @@ TraceEnd ==
 TraceEnv ==
   /\ Is("Env")
   /\ LET pred == CASE Ev.e = "PodRunning" -> [S EXCEPT !.pods[Ev.p].ph = "Running"]
+                   [] Ev.e = "PodTerminating" -> [S EXCEPT !.pods[Ev.p].ph = "Terminating"]
                    [] Ev.e = "Annotate" -> IF S.res[Ev.g].n > 0 /\ S.res[Ev.g].idx < 0
                                            THEN [S EXCEPT !.res[Ev.g].idx = S.nidx, !.nidx = S.nidx + 1] ELSE S
                    [] OTHER -> S
